@@ -36,6 +36,10 @@ var c16Menu = []string{
 	"if gv == %N% {\n\tpanic(\"stop\")\n}",
 	"ol%N% := []int{1}\nprint(len(ol%N%))\nos%N% := \"abc\"\nprint(os%N%)",
 	"gs += \"x\"\ngv -= 1\ngv++\ngv--\ngs, gv = \"q\", 2",
+	// branches whose only statement is a jump
+	"// break-in-switch-outside-loop\nswitch gv {\ncase 1:\n\tbreak\ncase 2:\n\tprint(2)\ndefault:\n\tbreak\n}",
+	"for i%N% := 0; i%N% < 2; i%N%++ {\n\tswitch i%N% {\n\tcase 0:\n\t\tbreak\n\tdefault:\n\t\tcontinue\n\t}\n%BODY%\n}",
+	"// break-in-switch-outside-loop\nfunc t%N%(a int) int {\n\tswitch a {\n\tcase 1:\n\t\tbreak\n\tcase 2:\n\t\treturn 2\n\tdefault:\n\t}\n\tif a == 3 {\n\t\treturn 3\n\t} else {\n\t\treturn 4\n\t}\n\treturn 0\n}\nprint(t%N%(1))",
 }
 
 var c16Bodies = []string{
@@ -304,6 +308,11 @@ func CheckC16(r *Run) int {
 				var hasErr bool
 				var errText gosym.Str
 				gp := c.Try(func() { script, errText, hasErr = c.Transpile("/work/main.tsh", target) })
+				if gp == nil && hasErr && target == "batch" && strings.Contains(src, "// break-in-switch-outside-loop") && strings.Contains(errText.String(), "break statement is only supported within a for-loop") {
+					// recorded defect (KNOWN_FINDINGS, C01 break-inside-switch): the Batch back-end rejects a break in a
+					// switch clause outside a loop; the Bash script of the same program is still checked
+					continue
+				}
 				if gp != nil || hasErr {
 					o.Kind = "rejected"
 					o.Issues = append(o.Issues, "generator-program-rejected:"+target+":"+errText.String())
